@@ -249,7 +249,8 @@ func (obj SparseConstInt64Vector) ITERATOR() *SparseConstInt64VectorIterator {
   return &r
 }
 func (obj SparseConstInt64Vector) ITERATOR_FROM(i int) *SparseConstInt64VectorIterator {
-  k := 0
+  // no entry at or behind position i: the iterator is exhausted
+  k := len(obj.indices)
   for j, idx := range obj.indices {
     if idx >= i {
       k = j
